@@ -54,3 +54,33 @@ func TestUnquote(t *testing.T) {
 		}
 	}
 }
+
+func TestDecodeValueNumber(t *testing.T) {
+	cases := []struct {
+		in  string
+		ret int
+		vt  types.ValueType
+		iv  int64
+		dv  float64
+	}{
+		{"0", 1, types.V_INTEGER, 0, 0},
+		{"-0", 2, types.V_INTEGER, 0, 0},
+		{"9223372036854775807,", 19, types.V_INTEGER, 9223372036854775807, 0},
+		{"-9223372036854775808", 20, types.V_INTEGER, -9223372036854775808, 0},
+		{"9223372036854775808", 19, types.V_DOUBLE, 0, 9223372036854775808},
+		{"18446744073709551615]", 20, types.V_DOUBLE, 0, 18446744073709551615},
+		{"-123456789012345678901234567890", 31, types.V_DOUBLE, 0, -123456789012345678901234567890},
+		{"1.5e3 ", 5, types.V_DOUBLE, 0, 1500},
+		{"1e-400", 6, types.V_DOUBLE, 0, 0},
+		{"1e400", -int(types.ERR_FLOAT_INFINITY), -types.ValueType(types.ERR_FLOAT_INFINITY), 0, 0},
+	}
+	for _, c := range cases {
+		ret, v := DecodeValue(c.in, 0)
+		if ret != c.ret || v.Vt != c.vt {
+			t.Fatalf("%q: ret %d vt %d, expected ret %d vt %d", c.in, ret, v.Vt, c.ret, c.vt)
+		}
+		if ret >= 0 && (v.Iv != c.iv || v.Dv != c.dv) {
+			t.Fatalf("%q: got %d %v, expected %d %v", c.in, v.Iv, v.Dv, c.iv, c.dv)
+		}
+	}
+}
